@@ -27,7 +27,7 @@ import (
 )
 
 func TestMain(m *testing.M) {
-	vlib.Rule("C40: master + 3 `weed volume` children in one rack; per case 1-6 operations on 1-2 fresh file ids of a volume with replication 001 or 002: upload through the assigned primary (content text/random, names and mimes that do / do not trigger client-side compression, 0-2 pairs headers, ts absent/past, ttl absent/5m, gzip-encoded bodies, overwrite of the same fid) and delete; fault cases kill a replica process before the operation. Oracle: after a 2xx answer the newest record of that needle in every replica's .dat file (read directly from disk) has the same decoded content, name, mime, pairs, last-modified and TTL (or is a deletion everywhere), and equals what was sent; with a dead replica the primary must not answer 2xx. Non-trivial = upload with >=2 optional attributes, or an overwrite/delete, or a fault.")
+	vlib.Rule("C40: master + 3 `weed volume` children in one rack; per case 1-6 operations on 1-2 fresh file ids of a volume with replication 001 or 002: upload through the assigned primary (content text/random, names and mimes that do / do not trigger client-side compression, 0-2 pairs headers, ts absent/past, ttl absent/5m, gzip-encoded bodies, overwrite of the same fid) and delete; fault cases kill a replica process before the operation. Oracle: after a 2xx answer the newest record of that needle in every replica's .dat file (read directly from disk) has the same decoded content, name, mime, pairs, last-modified and TTL (or is a deletion everywhere), and equals what was sent; with a dead replica the primary must not answer 2xx, neither for the first attempt nor for 0-2 identical retries issued while the replica is still down (the primary then already holds the outcome: 'unchanged'), and an identical retry after the replica is back must leave all replicas equal. Non-trivial = upload with >=2 optional attributes, or an overwrite/delete, or a fault.")
 	vlib.Assume("replica state is read from the volume files on disk with the storage package's scanner (appends are visible immediately; no user-space buffering in DiskFile)")
 	vlib.Main(m)
 }
@@ -519,6 +519,24 @@ func TestPropReplicaFailure(t *testing.T) {
 			t.Fatalf("%s of %s answered %d (%s) although replica %s was down: the replicas cannot all hold the outcome", op, ar2.Fid, code, body, c.VolumeSrv[victim].Name)
 		}
 		trace := fmt.Sprintf("replica %s killed, %s on volume %d -> %d", c.VolumeSrv[victim].Name, op, vid, code)
+		// the client retries the very same operation while the replica is still down: the primary
+		// already holds the outcome of the failed attempt ("unchanged"), the replica still cannot
+		nRetryDown := rapid.IntRange(0, 2).Draw(t, "retriesWhileDown")
+		for i := 0; i < nRetryDown; i++ {
+			if op == "upload" {
+				code, body, err = doUpload("http://"+ar.Url+"/"+fid2, u)
+			} else {
+				code, _, body, err = vlib.Do("DELETE", url, nil, nil)
+			}
+			if err != nil {
+				t.Fatalf("INCONCLUSIVE %s retried with a dead replica: transport error %v", op, err)
+			}
+			trace += fmt.Sprintf("; identical %s repeated while the replica is down -> %d", op, code)
+			if code/100 == 2 {
+				t.Fatalf("%s of %s answered %d (%s) although replica %s was still down: the replicas cannot all hold the outcome (%s)", op, ar2.Fid, code, body, c.VolumeSrv[victim].Name, trace)
+			}
+			vlib.Class("fault-retried-while-replica-down")
+		}
 		// the client retries the very same operation once the replica is back: whatever the
 		// primary kept from the failed attempt, a success now must hold on every replica
 		if rapid.Bool().Draw(t, "retryAfterRecovery") {
